@@ -79,6 +79,10 @@ impl<E: 'static> TerminateGuard<E> {
     /// Called by scope tasks which resulted with an error.
     /// It has a side effect of canceling the scope.
     pub(super) fn set_err(&self, err: OrPanic<E>) {
+        #[cfg(era_consensus_verif)]
+        crate::verif::preempt();
+        #[cfg(era_consensus_verif)]
+        let _no_preempt = crate::verif::NoPreempt::new();
         let mut m = self.0.err.lock().unwrap();
         match (&*m, &err) {
             // Panic overrides an error, but error doesn't override an error.
